@@ -169,6 +169,7 @@ type parked struct {
 type batchExec struct {
 	sc        *BatchSc
 	cnMissing bool // the implementation has no exported embedded CustomNode to install callbacks through
+	swapped   bool // the node's embedded CustomNode was replaced (fallback / non-[]Result prep forms)
 	mu        sync.Mutex
 	events    []BEv
 	parked    []*parked
@@ -570,6 +571,7 @@ func (x *batchExec) build() flyt.Node {
 		dst, ok2 := embedded(b, "CustomNode")
 		if ok1 && ok2 && src.Type() == dst.Type() {
 			dst.Set(src)
+			x.swapped = true
 		} else {
 			x.cnMissing = true // no such route in this implementation: the case cannot be set up
 		}
@@ -635,18 +637,9 @@ func (x *batchExec) build() flyt.Node {
 // configuration must be read at run time, not cached from an earlier run.
 func (x *batchExec) reconfigure(next *BatchSc) {
 	b := x.builder
-	base := embeddedBase(b)
-	if next.CfgBits&1 != 0 && base != nil {
-		flyt.WithMaxRetries(next.budget())(base)
-	} else {
-		b.WithMaxRetries(next.budget())
-	}
+	b.WithMaxRetries(next.budget())
 	b.WithWait(next.wait())
-	if next.CfgBits&2 != 0 && base != nil {
-		flyt.WithBatchConcurrency(next.C)(base)
-	} else {
-		b.WithBatchConcurrency(next.C)
-	}
+	b.WithBatchConcurrency(next.C)
 	b.WithBatchErrorHandling(next.Mode != 2)
 	n := next.n()
 	x.mu.Lock()
@@ -798,6 +791,23 @@ func (x *batchExec) run() batchRun {
 func (x *batchExec) rejected(br batchRun) bool {
 	if x.cnMissing {
 		return true
+	}
+	if x.swapped && br.Panic == "" && br.CtxErr == nil && x.sc.n() > 0 && x.sc.PrepErr == 0 {
+		// After the swap the builder's exec function must still be the one that runs. If prep
+		// produced items and not a single exec callback was seen, the builder configures another
+		// CustomNode than the one the run uses: the scenario could not be set up.
+		sawPrep, sawExec := false, false
+		for _, e := range br.Events {
+			switch e.Kind {
+			case "prep":
+				sawPrep = sawPrep || e.RetErr == nil
+			case "exec", "fb":
+				sawExec = true
+			}
+		}
+		if sawPrep && !sawExec {
+			return true
+		}
 	}
 	return prepFormRejected(x.sc, br.Events, br.Err, br.Panic, br.CtxErr)
 }
